@@ -10,8 +10,8 @@ from . import c03 as A
 
 ID = 'C08'
 TITLE = 'timeseries operators equal the pointwise operation on aligned operands'
-LEAN_FILES = ['Basic', 'TSBasic', 'Fill', 'FillDriver', 'Align', 'AlignDriver', 'Ops', 'OpsF', 'OpsX', 'OpsDriver', 'FillLemmas', 'AlignLemmas', 'OpsLemmas',
-              'OpsFLemmas', 'OpsXLemmas', 'C08']
+LEAN_FILES = ['Basic', 'TSBasic', 'Fill', 'FillDriver', 'Align', 'AlignDriver', 'Ops', 'OpsF', 'OpsX', 'OpsFX', 'OpsDriver', 'FillLemmas', 'AlignLemmas', 'OpsLemmas',
+              'OpsFLemmas', 'OpsXLemmas', 'OpsFXLemmas', 'C08']
 RULE = ('distinct protocol lines (operator / aggregate, operands, index policy, fill method) on which the implementation returned a '
         'value and at least two Series / DataFrame operands are involved')
 TRUSTED = ['correspondence harness (pv.engine, pv.proto, pv.props._w5ts) and generators of pv.props.c08',
@@ -34,6 +34,7 @@ MEANV = [0.0, 0.75, 1.5, -0.75, 3.0, 2.25]
 OPS = ['add', 'sub', 'mul', 'div']
 HOWS = ['ij', 'oj', 'ij', 'oj', 'lj', 'rj']
 METHODS = ['N', 'N', 'ffill', 'bfill']
+CHS = ['ij', 'oj', 'ij', 'oj', 'lj', 'rj']          # column policies: the two of the quantifier, and first / last frame's columns
 
 
 # ------------------------------------------------------------------ wire
@@ -78,6 +79,10 @@ def enc_q(v):
 def enc_out(r, sort_columns=False):
     if r is None:
         return 'N'
+    if isinstance(r, pd.DataFrame) and r.shape[1] > 0 and all(dt == bool for dt in r.dtypes):
+        return '(bdf (T (L%s) (D%s)))' % (''.join(' ' + W.enc_t(t) for t in r.index),
+                                          ''.join(' (%s (L%s))' % (proto.hexs(str(r.columns[j])), ''.join(' true' if v else ' false' for v in r.iloc[:, j].values))
+                                                  for j in range(r.shape[1])))
     if isinstance(r, pd.DataFrame):
         cols = list(range(r.shape[1]))
         if sort_columns:        # the aggregates: the order of the joint columns is pandas' business (Index.union / intersection)
@@ -155,7 +160,7 @@ def gen_frames(rng, tier):
     n = 700 if tier == 'quick' else 16000
     for _ in range(n):
         op = rng.choice(OPS)
-        how, m, ch = rng.choice(HOWS), rng.choice(METHODS), rng.choice(['ij', 'oj'])
+        how, m, ch = rng.choice(HOWS), rng.choice(METHODS), rng.choice(CHS)
         shape = rng.choice(['df-df', 'df-df', 'df-df', 'df-df', 'df-ts', 'ts-df', 'df-num', 'num-df', 'df1-df', 'df-df1', 'df1-df1', 'df1-ts', 'ts-df1',
                             'df1-num', 'list-none', 'list-none', 'list-df', 'df-list', 'mix-list'])
         k = 2 if '-list' not in shape and 'list-' not in shape else rng.choice([3, 3, 4])
@@ -291,10 +296,44 @@ def gen_others(rng, tier):
             yield dict(tag='pow/%s/%s/%s/%s' % (shape, rel, how, m), lines=['(ops pow %s %s %s %s)' % (enc_in(a), enc_in(b), how, m)])
 
 
+FSHAPES = ['df-df', 'df-df', 'df-df', 'df-df', 'df-ts', 'ts-df', 'df-num', 'num-df', 'df1-df', 'df-df1', 'df1-df1', 'df1-ts', 'ts-df1', 'df1-num']
+
+
+def gen_others_frames(rng, tier):
+    """pow_ and the comparisons with DataFrame operands (the presync column loop with default = nan)"""
+    n = 400 if tier == 'quick' else 9000
+    for _ in range(n):
+        kind = rng.choice(['cmpf', 'cmpf', 'powf'])
+        how, m, ch = rng.choice(HOWS), rng.choice(METHODS), rng.choice(CHS)
+        shape = rng.choice(FSHAPES)
+        days, rel = rand_fdays(rng, 2)
+        cs, crel = rand_colsets(rng, 2)
+
+        def mk(kind_, j, vals, nums):
+            if kind_ == 'df':
+                return rand_frame(rng, days[j], vals, cs[j])
+            if kind_ == 'df1':
+                return rand_frame(rng, days[j], vals, rng.choice(ONECOL))
+            if kind_ == 'ts':
+                return rand_series(rng, days[j], vals)
+            return rng.choice(nums)
+        ka, kb = shape.split('-')
+        if kind == 'cmpf':
+            cv = [0.0, 1.0, 1.0, -1.0, 2.0, 0.5]
+            nums = [0.0, 1.0, 2.0, -0.5, 1, 0.25, nan]
+            a, b = mk(ka, 0, cv, nums), mk(kb, 1, cv, nums)
+            yield dict(tag='cmpf/%s/%s/%s/%s/%s/%s' % (shape, rel, crel, how, m, ch),
+                       lines=['(ops cmpf %s %s %s %s %s %s)' % (rng.choice(['gt', 'ge', 'lt', 'le']), enc_in(a), enc_in(b), how, m, ch)])
+        else:
+            a, b = mk(ka, 0, POWB, POWB + [nan, 1]), mk(kb, 1, POWE, POWE + [nan, 1, 3])
+            yield dict(tag='powf/%s/%s/%s/%s/%s/%s' % (shape, rel, crel, how, m, ch), lines=['(ops powf %s %s %s %s %s)' % (enc_in(a), enc_in(b), how, m, ch)])
+
+
 def generate(rng, tier):
     yield from gen_series(rng, tier)
     yield from gen_frames(rng, tier)
     yield from gen_others(rng, tier)
+    yield from gen_others_frames(rng, tier)
 
 
 def gen_series(rng, tier):
@@ -397,6 +436,22 @@ def run_line(state, sx):
         if not A.same_tree([a, b], before):
             return 'violation input-modified'
         return 'ok ' + enc_out(res)
+    if op == 'powf':
+        a, b = dec_in(args[0]), dec_in(args[1])
+        before = A.snapshot_tree([a, b])
+        res = _fn('pow_')(a, b, join=args[2], method=A.dec_method(args[3]), columns=args[4])
+        if not A.same_tree([a, b], before):
+            return 'violation input-modified'
+        return 'ok ' + enc_out(res)
+    if op == 'cmpf':
+        a, b = dec_in(args[1]), dec_in(args[2])
+        before = A.snapshot_tree([a, b])
+        res = _fn(args[0] + '_')(a, b, join=args[3], method=A.dec_method(args[4]), columns=args[5])
+        if not A.same_tree([a, b], before):
+            return 'violation input-modified'
+        if isinstance(res, pd.Series) and len(res) == 0:
+            return 'ok (bts (L))'                # no common column: `pd.Series({})`, an empty Series of no particular dtype
+        return 'ok ' + enc_out(res)
     if op == 'aggf':
         xs = dec_in(args[1])
         before = A.snapshot_tree(xs)
@@ -419,7 +474,7 @@ def compare(case, i, line, ir, mr):
     if proto.same_reply(ir, mr):
         # same_reply compares (D ..) nodes as sets: the ORDER of the result columns of the operators (theorems
         # binopF_columns_sorted / "the common header in its own order") is compared here; the aggregates' order is pandas' business
-        if line.startswith('(ops binf ') and _header(ir) != _header(mr):
+        if line.startswith(('(ops binf ', '(ops powf ', '(ops cmpf ')) and _header(ir) != _header(mr):
             return ('divergence', 'same frame, columns in the order %s; the model gives %s' % (_header(ir), _header(mr)))
         return None
     if ir.startswith('violation'):
@@ -430,7 +485,7 @@ def compare(case, i, line, ir, mr):
 
 
 def _header(reply):
-    if not reply.startswith('ok (df '):
+    if not reply.startswith(('ok (df ', 'ok (bdf ')):
         return None
     sx = proto.parse(reply[3:])
     return [proto.unhex(kv[0]) for kv in sx[1][2][1:]]
